@@ -61,6 +61,7 @@ pub fn replay_history(args: &[String]) -> i32 {
     let mut m = MState::Closed;
     let mut bad = 0;
     let mut f: Findings = Vec::new();
+    let mut hist_lines: Vec<(Vec<u8>, bool)> = Vec::new();
     for (i, a) in args[1..].iter().enumerate() {
         let (d, h) = match a.split_once(':') {
             Some(x) => x,
@@ -78,6 +79,11 @@ pub fn replay_history(args: &[String]) -> i32 {
         println!("   parser      {}", d1);
         f.clear();
         judge_step(&exp, &line, decode, &out, &d0, &d1, &mut f);
+        hist_lines.push((line.clone(), decode));
+        let n = hist_lines.len();
+        crate::explore::confirm_traces(&mut f, || {
+            crate::explore::states_differ(&hist_lines[..n - 1], &hist_lines[..n], &crate::explore::probe_set(&m))
+        });
         for (props, sig, why) in f.drain(..) {
             println!("   FINDING {} (contradicts {:?}): {}", sig, props, why);
             if props.contains(&prop) {
